@@ -843,6 +843,35 @@ def spec_mangen(fns, consts):
             what = "positionals" if "get_positionals" in name else "options"
             obs.append({"fn": sfn.name, "block": "loop", "kind": "spec", "target": "mangen", "msg": f"synopsis: the loop over {what} runs over items filtered by `!is_hide_set()`", "pc": [], "neg": "false" if ok else "true"})
         enc.append(_enc(sfn, sex, len(loops)))
+    # (d) in the options section every consumer of `cmd.get_arguments()` goes through a `!is_hide_set()` filter first
+    osec = [f for n, f in fns.items() if n.endswith("::_render_options_section")]
+    if len(osec) != 1:
+        shape("Man::_render_options_section not found exactly once")
+    else:
+        ofn = osec[0].get()
+        oex = symex.Exec(ctx, ofn, [("opq", "self"), ("opq", "roff")])
+        oex.run(havoc_unassigned=True, cut_loops=True)
+        consumers = {}
+        for ca in [env.get("#callargs", ()) for _, env in oex.cuts] + list(oex.return_callargs):
+            for c in ca:
+                if c[1] and re.match(r"^clap::Command::get_arguments\(", c[1][0]):
+                    consumers[c[0]] = c
+        if not consumers:
+            shape("_render_options_section: no use of get_arguments found")
+        for name in sorted(consumers):
+            ok = False
+            m = re.match(r"^<std::slice::Iter<'_, Arg> as Iterator>::filter::<(\{closure@clap_mangen/src/lib\.rs:[\d: ]+\})>$", name)
+            if m:
+                try:
+                    cf = _closure_fn(fns, m.group(1))
+                    cex = symex.Exec(ctx, cf, [("opq", "osec_env"), ("opq", "osec_item")]).run()
+                    hk = [ctx.keys[k] for k in ctx.keys if re.search(r"::is_hide_set\(osec_item\)$", k)]
+                    ok = len(cex.returns) == 1 and len(hk) == 1 and not cex.returns[0][0] and cex.returns[0][1][1] == f"(not {hk[0]})"
+                except Unsupported:
+                    ok = False
+            obs.append({"fn": ofn.name, "block": "call", "kind": "spec", "target": "mangen", "msg": "options section: the command's arguments are consumed only through a `!is_hide_set()` filter (" + name.split(" as Iterator>::")[-1][:40] + ")",
+                        "pc": [], "neg": "false" if ok else "true"})
+        enc.append(_enc(ofn, oex, len(consumers)))
     r = [f for n, f in fns.items() if n.endswith(">::render") and "lib.rs" in n]
     if len(r) != 1:
         raise Unsupported("clap_mangen: Man::render not found exactly once")
@@ -2243,3 +2272,74 @@ def spec_propagate_globals(fns, consts):
 
 
 SPECS["C09"].append(spec_propagate_globals)
+
+
+# ------------------------------------------------------------------ C12: distinct short flags get distinct help sort keys
+
+def spec_option_sort_key(fns, consts):
+    """help_template.rs option_sort_key: options are stored in a BTreeMap keyed by (display order, key), so
+    two visible options with equal display order and EQUAL keys overwrite each other and one vanishes from
+    the help.  For short flags the key is lower(x) followed by '0'/'1'.  The data flow of the MIR (what is
+    lower-cased, what is tested for being lower case, which suffix goes with which outcome) is extracted
+    and the solver shows the key is injective on ASCII shorts: x != y => key(x) != key(y), with
+    to_ascii_lowercase / is_ascii_lowercase given their exact bit-vector definitions."""
+    con = contracts.Contracts(fns, default_pure=True)
+    ctx = symex.Ctx(consts, con)
+    fn = _find(fns, "", "option_sort_key")
+    ex = symex.Exec(ctx, fn, [("opq", "arg")]).run()
+    obs = []
+
+    def add(msg, pc, neg, block="ret"):
+        obs.append({"fn": fn.name, "block": block, "kind": "spec", "target": "option_sort_key", "msg": msg, "pc": list(pc), "neg": neg})
+
+    short_paths = [(pc, val, ca) for (pc, val), ca in zip(ex.returns, ex.return_callargs) if any(c[0].endswith("::to_ascii_lowercase") or c[0].endswith("::is_ascii_lowercase") for c in ca)]
+    ORIG = "Arg::get_short(arg)@Some.0"
+    x, y = ctx.sym("short_x", "(_ BitVec 32)"), ctx.sym("short_y", "(_ BitVec 32)")
+
+    def lower(t):
+        return f"(ite (and (bvuge {t} (_ bv65 32)) (bvule {t} (_ bv90 32))) (bvadd {t} (_ bv32 32)) {t})"
+
+    def islower(t):
+        return f"(and (bvuge {t} (_ bv97 32)) (bvule {t} (_ bv122 32)))"
+
+    def term(key, v):
+        """the term a call-argument key denotes when the short flag is v"""
+        if key == ORIG:
+            return v
+        m = re.match(r"^char::methods::<impl char>::to_ascii_lowercase\((.*)\)$", key)
+        if m:
+            return lower(term(m.group(1), v))
+        raise Unsupported("option_sort_key: unexpected operand " + key[:60])
+
+    suffix = {}   # outcome of the lower-case test -> pushed char
+    first, tested = None, None
+    try:
+        for pc, val, ca in short_paths:
+            low = [c for c in ca if c[0].endswith("::to_ascii_lowercase")]
+            tst = [c for c in ca if c[0].endswith("::is_ascii_lowercase")]
+            ts = [c for c in ca if c[0] == "<char as ToString>::to_string"]
+            push = [c for c in ca if c[0] == "String::push"]
+            if len(tst) != 1 or len(ts) != 1 or len(push) != 1:
+                raise Unsupported("option_sort_key: short branch has an unexpected shape")
+            first = ts[0][1][0]
+            tested = tst[0][1][0]
+            outcome = ctx.keys[tst[0][2]] in pc
+            m = re.match(r"^\(_ bv(\d+) 32\)$", push[0][1][1])
+            if not m:
+                raise Unsupported("option_sort_key: pushed suffix is not a literal char")
+            suffix[outcome] = int(m.group(1))
+        if set(suffix) != {True, False}:
+            raise Unsupported("option_sort_key: both outcomes of the case test are expected")
+
+        def key_of(v):
+            return term(first, v), f"(ite {islower(term(tested, v))} (_ bv{suffix[True]} 32) (_ bv{suffix[False]} 32))"
+        (a1, s1), (a2, s2) = key_of(x), key_of(y)
+        add("distinct ASCII short flags get distinct sort keys (so that neither option overwrites the other in the help)", [],
+            f"(and (not (= {x} {y})) (bvult {x} (_ bv128 32)) (bvult {y} (_ bv128 32)) (= {a1} {a2}) (= {s1} {s2}))")
+        add("the lower-case variant of a letter sorts before the upper-case one (suffix '0' < '1')", [], "false" if suffix[True] < suffix[False] else "true")
+    except Unsupported as e:
+        add("short-flag key: " + str(e), [], "true", block="shape")
+    return ctx, obs, [_enc(fn, ex, len(short_paths))], con
+
+
+SPECS["C12"].append(spec_option_sort_key)
